@@ -9,6 +9,8 @@ def sh(*a, **k): return subprocess.run(a, stdout=subprocess.PIPE, stderr=subproc
 if not os.path.isdir(ST):
     sh("git", "-C", "/repo", "branch", "-f", "stage", "main"); r = sh("git", "-C", "/repo", "worktree", "add", "-q", ST, "stage")
     if r.returncode: print(r.stdout); sys.exit(1)
+APPLIED = "/verif/repo-patches/APPLIED.txt"  # patches already integrated into /repo main (relative paths)
+applied = set(open(APPLIED).read().split()) if os.path.exists(APPLIED) else set()
 def subjects(): return set(sh("git", "-C", ST, "log", "--format=%s").stdout.split("\n"))
 for pid in sys.argv[1:]:
     have = subjects()
@@ -16,9 +18,11 @@ for pid in sys.argv[1:]:
         msg = email.message_from_string(open(p, errors="replace").read())
         subj = str(email.header.make_header(email.header.decode_header(msg["Subject"] or "")))
         subj = re.sub(r"\s+", " ", re.sub(r"^\[PATCH[^\]]*\]\s*", "", subj)).strip()
-        if subj in have: continue
+        rel = os.path.relpath(p, "/verif/repo-patches")
+        if rel in applied or subj in have: continue
         r = sh("git", "-C", ST, "am", "-q", "--3way", p)
         if r.returncode == 0:
             print(f"applied {pid} {os.path.basename(p)}: {subj}"); have.add(subj)
+            open(APPLIED, "a").write(rel + "\n")
         else:
             print(f"CONFLICT {pid} {os.path.basename(p)}: {subj}\n{r.stdout[-600:]}"); sh("git", "-C", ST, "am", "--abort"); break
